@@ -12,7 +12,7 @@ use crate::kani_verif_common::*;
 use crate::{Board, ChessMove};
 use chess_bitboard::{BitBoard, Color, Piece, Pos};
 
-/// a board satisfying the representation invariant (DESIGN 4): valid position, cached sets == spec
+/// a board satisfying the representation invariant (DESIGN 4): valid position, cached sets == spec (set forms)
 fn inv_board(checkers: u32) -> (Board, r::P) {
     let b = any_board();
     let p = view(&b);
@@ -23,6 +23,72 @@ fn inv_board(checkers: u32) -> (Board, r::P) {
     kani::assume(b.pinned.to_u64() == r::pinned_spec(&p));
     kani::assume(b.checkers.to_u64().count_ones() == checkers);
     (b, p)
+}
+/// The same invariant with the cheapest sufficient assumptions for a foreach-loop BODY obligation:
+///  * the cached pin flag is assumed correct only at the (nondeterministic, pre-selected) members the loops will
+///    pick — the body reads `pinned` only through the loop ranges;
+///  * "side not to move not in check" is used in the form "kings are not adjacent" plus the query restriction
+///    "destination is not the enemy king's square" (under the invariant no piece of the mover attacks the enemy king,
+///    so no such move is pseudo-legal; generator and spec both exclude it).
+fn inv_board_body(checkers: u32, nsel: usize) -> (Board, r::P, [u8; 3]) {
+    let b = any_board();
+    let p = view(&b);
+    kani::assume(r::one_king_each(&p) && r::at_most_16(&p) && r::rights_ok(&p) && r::ep_ok(&p));
+    kani::assume(!g::has(g::king_att(r::king_of(&p, 0)), r::king_of(&p, 1)));
+    kani::assume(p.pcs[r::PAWN as usize] & (g::rank_set(0) | g::rank_set(7)) == 0);
+    kani::assume(b.checkers.to_u64() == r::checkers_spec(&p));
+    kani::assume(b.checkers.to_u64().count_ones() == checkers);
+    let sel: [u8; 3] = kani::any();
+    let mut k = 0;
+    while k < 3 {
+        if k < nsel {
+            kani::assume(sel[k] < 64);
+            kani::assume(g::has(b.pinned.to_u64(), sel[k]) == r::is_pinned(&p, sel[k]));
+            preselect(k, sel[k]);
+        }
+        k += 1;
+    }
+    (b, p, sel)
+}
+/// the destination the current obligation asks about (ghost; set by the harness before the call)
+static mut QUERY_D: u8 = 64;
+/// Contract abstractions of the slider lookups, WEAKENED to the queried destination: the result is arbitrary except
+/// that its bit QUERY_D is what the (C08-verified) contract says. Implied by the full contract
+/// `result == ray casting`, so using it at a call site is sound; it keeps one line walk in the query instead of four.
+fn rook_moves_query_stub(pos: Pos, all: BitBoard) -> BitBoard {
+    let r: BitBoard = kani::any();
+    let d = unsafe { QUERY_D };
+    kani::assume(r.contains(Pos::from_u8(d).unwrap()) == r::slider_reaches(pos as u8, d, all.to_u64(), false, true));
+    r
+}
+fn bishop_moves_query_stub(pos: Pos, all: BitBoard) -> BitBoard {
+    let r: BitBoard = kani::any();
+    let d = unsafe { QUERY_D };
+    kani::assume(r.contains(Pos::from_u8(d).unwrap()) == r::slider_reaches(pos as u8, d, all.to_u64(), true, false));
+    r
+}
+/// full contract abstractions (result == ray casting; discharged by C08.* / C09.line) for callers that need whole sets
+fn rook_moves_contract_stub(pos: Pos, all: BitBoard) -> BitBoard {
+    let r: BitBoard = kani::any();
+    kani::assume(r.to_u64() == g::rook_att(pos as u8, all.to_u64()));
+    r
+}
+fn bishop_moves_contract_stub(pos: Pos, all: BitBoard) -> BitBoard {
+    let r: BitBoard = kani::any();
+    kani::assume(r.to_u64() == g::bishop_att(pos as u8, all.to_u64()));
+    r
+}
+fn line_contract_stub(a: Pos, b: Pos) -> BitBoard {
+    let r: BitBoard = kani::any();
+    kani::assume(r.to_u64() == g::line_spec(a as u8, b as u8));
+    r
+}
+/// the same for `line(src, king)`: only membership of QUERY_D matters
+fn line_query_stub(a: Pos, b: Pos) -> BitBoard {
+    let r: BitBoard = kani::any();
+    let d = unsafe { QUERY_D };
+    kani::assume(r.contains(Pos::from_u8(d).unwrap()) == g::has(g::line_spec(a as u8, b as u8), d));
+    r
 }
 fn entry_count(list: &MoveList, src: u8, d: u8) -> usize {
     let mut n = 0;
@@ -52,36 +118,33 @@ macro_rules! piece_body {
         #[kani::proof]
         #[kani::unwind(9)]
         #[kani::stub(chess_bitboard::BitBoard::pop, pop_one_shot)]
+        #[kani::stub(chess_lookup::rook_moves, rook_moves_query_stub)]
+        #[kani::stub(chess_lookup::bishop_moves, bishop_moves_query_stub)]
+        #[kani::stub(chess_lookup::line, line_query_stub)]
         #[kani::stub_verified(chess_lookup::between)]
-        #[kani::stub_verified(chess_lookup::line)]
         #[kani::stub_verified(chess_lookup::knight_moves)]
-        #[kani::stub_verified(chess_lookup::rook_moves)]
-        #[kani::stub_verified(chess_lookup::bishop_moves)]
         fn $name() {
-            let (b, p) = inv_board($nchk);
+            let (b, p, _sel) = inv_board_body($nchk, 2);
             let user_mask: BitBoard = kani::any();
             let own = p.col[p.turn as usize];
             let mask = !b.raw[b.turn] & user_mask;
+            // the queried destination (every square except the enemy king's, see inv_board_body)
+            let d: u8 = kani::any();
+            kani::assume(d < 64 && d != r::king_of(&p, 1 - p.turn));
+            unsafe { QUERY_D = d };
             let mut list = MoveList::default();
             <$ty as PieceType>::legals::<{ $check }>(&mut list, &b, mask);
             let n = npops();
             assert!(n <= 2 && list.len() <= n, "VERIF more entries than loop bodies executed");
             assert!(well_shaped(&list, own, p.pcs[$pc as usize], mask), "VERIF entry empty, outside the mask, or not for an own piece of this type");
-            // for each member the loops picked, and a nondeterministic destination d:
-            let d: u8 = kani::any();
-            kani::assume(d < 64);
-            let mut k = 0;
-            while k < n && k < 2 {
-                let s = popped(k);
-                let want = r::legal(&p, r::Mv { src: s, dst: d, promo: 0 }) && mask.contains(Pos::from_u8(d).unwrap());
-                let got = entry_count(&list, s, d);
-                assert!(got == if want { 1 } else { 0 }, "VERIF {:?} {}->{}: generated {} times, legal&&masked = {}", $pc, s, d, got, want);
-                k += 1;
-            }
-            // both loops together range over every own piece of the type: unpinned first, pinned second
-            if n >= 1 {
-                assert!(g::has(own & p.pcs[$pc as usize], popped(0)), "VERIF loop ranges over a foreign square");
-            }
+            // for a nondeterministically chosen one of the members the loops picked:
+            let k: usize = kani::any();
+            kani::assume(k < n && k < 2);
+            let s = popped(k);
+            assert!(g::has(own & p.pcs[$pc as usize], s), "VERIF loop ranges over a foreign square");
+            let want = r::legal(&p, r::Mv { src: s, dst: d, promo: 0 }) && mask.contains(Pos::from_u8(d).unwrap());
+            let got = entry_count(&list, s, d);
+            assert!(got == if want { 1 } else { 0 }, "VERIF piece {} {}->{} on [{}]: generated {} times, legal&&masked = {}", $pc, s, d, b, got, want);
         }
     };
 }
@@ -125,35 +188,45 @@ macro_rules! pawn_body {
         #[kani::unwind(9)]
         #[kani::stub(chess_bitboard::BitBoard::pop, pop_one_shot)]
         #[kani::stub_verified(chess_lookup::between)]
-        #[kani::stub_verified(chess_lookup::line)]
+        #[kani::stub(chess_lookup::line, line_query_stub)]
         #[kani::stub_verified(chess_lookup::pawn_moves)]
-        #[kani::stub_verified(chess_lookup::rook_moves)]
-        #[kani::stub_verified(chess_lookup::bishop_moves)]
+        #[kani::stub(chess_lookup::rook_moves, rook_moves_contract_stub)]
+        #[kani::stub(chess_lookup::bishop_moves, bishop_moves_contract_stub)]
         fn $name() {
-            let (b, p) = inv_board($nchk);
+            let (b, p, _sel) = inv_board_body($nchk, 3);
             let user_mask: BitBoard = kani::any();
             let own = p.col[p.turn as usize];
             let mask = !b.raw[b.turn] & user_mask;
+            let d: u8 = kani::any();
+            kani::assume(d < 64 && d != r::king_of(&p, 1 - p.turn));
+            unsafe { QUERY_D = d };
             let mut list = MoveList::default();
             <Pawn as PieceType>::legals::<{ $check }>(&mut list, &b, mask);
             let n = npops();
             assert!(n <= 3 && list.len() <= n, "VERIF more entries than loop bodies executed");
             assert!(well_shaped(&list, own, p.pcs[r::PAWN as usize], mask), "VERIF pawn entry empty, outside the mask, or not for an own pawn");
-            let d: u8 = kani::any();
-            kani::assume(d < 64);
             let seventh = if p.turn == g::WHITE { 6 } else { 1 };
             let promo_q: u8 = kani::any();
             kani::assume(promo_q >= r::KNIGHT && promo_q <= r::QUEEN);
-            let mut k = 0;
-            while k < n && k < 3 {
-                let s = popped(k);
-                let promo = if g::rank_of(s) == seventh { promo_q } else { 0 };
-                let want = r::legal(&p, r::Mv { src: s, dst: d, promo }) && mask.contains(Pos::from_u8(d).unwrap());
-                // the e.p. loop (third) only accounts for the e.p. destination; the first two for everything else of that pawn
-                let got = entry_count(&list, s, d);
-                assert!(got == if want { 1 } else { 0 }, "VERIF pawn {}->{} (promo {}): generated {} times, legal&&masked = {}", s, d, promo, got, want);
-                k += 1;
+            // for a nondeterministically chosen one of the members the (up to three) loops picked:
+            let k: usize = kani::any();
+            kani::assume(k < n && k < 3);
+            let s = popped(k);
+            // which loop picked it: the en-passant loop is the last one; the first two run iff their ranges are non-empty
+            let pawns = own & p.pcs[r::PAWN as usize];
+            let ordinary_loops = (if pawns & !b.pinned.to_u64() != 0 { 1 } else { 0 }) + (if !$check && pawns & b.pinned.to_u64() != 0 { 1 } else { 0 });
+            let ep_dest = if p.ep == r::NO_EP { 64 } else { g::sq_of(p.ep, if p.turn == g::WHITE { 5 } else { 2 }) };
+            if k >= ordinary_loops {
+                // the e.p. loop accounts for the e.p. capture of its member only
+                kani::assume(d == ep_dest);
+            } else {
+                // the ordinary loops account for every move of their member except the e.p. capture
+                kani::assume(d != ep_dest);
             }
+            let promo = if g::rank_of(s) == seventh { promo_q } else { 0 };
+            let want = r::legal(&p, r::Mv { src: s, dst: d, promo }) && mask.contains(Pos::from_u8(d).unwrap());
+            let got = entry_count(&list, s, d);
+            assert!(got == if want { 1 } else { 0 }, "VERIF pawn {}->{} (promo {}) on [{}]: generated {} times, legal&&masked = {}", s, d, promo, b, got, want);
             // promotion flag: exactly the entries of pawns on their seventh rank; the plain move of such a pawn is not legal
             let mut i = 0;
             while i < list.len() {
@@ -219,9 +292,9 @@ macro_rules! king_body {
             // ordinary king steps are masked by the generator; castling destinations are filtered by the iterator's mask
             let got = list.len() == 1 && list[0].moves.contains(dp);
             if is_castle {
-                assert!(got == want, "VERIF castling {}->{}: generated {} legal {}", k, d, got, want);
+                assert!(got == want, "VERIF castling {}->{} on [{}]: generated {} legal {}", k, d, b, got, want);
             } else {
-                assert!(got == (want && mask.contains(dp)), "VERIF king {}->{}: generated {} legal {} masked {}", k, d, got, want, mask.contains(dp));
+                assert!(got == (want && mask.contains(dp)), "VERIF king {}->{} on [{}]: generated {} legal {} masked {}", k, d, b, got, want, mask.contains(dp));
             }
             if list.len() == 1 {
                 assert!(list[0].src as u8 == k && !list[0].promotion && list[0].moves.any(), "VERIF king entry shape");
@@ -267,10 +340,10 @@ macro_rules! piece_loop2 {
         #[kani::proof]
         #[kani::unwind(9)]
         #[kani::stub_verified(chess_lookup::between)]
-        #[kani::stub_verified(chess_lookup::line)]
+        #[kani::stub(chess_lookup::line, line_contract_stub)]
         #[kani::stub_verified(chess_lookup::knight_moves)]
-        #[kani::stub_verified(chess_lookup::rook_moves)]
-        #[kani::stub_verified(chess_lookup::bishop_moves)]
+        #[kani::stub(chess_lookup::rook_moves, rook_moves_contract_stub)]
+        #[kani::stub(chess_lookup::bishop_moves, bishop_moves_contract_stub)]
         fn $name() {
             let (b, p) = inv_board($nchk);
             let own = p.col[p.turn as usize];
